@@ -1,6 +1,6 @@
 (* C09, clauses (a1) legality of status transitions and (b) status at launch: the name-level relation.
-   Proved for histories in which no stop execution writes Terminating (assumption monitor), outside the
-   duplicate-instance window w_dup. *)
+   Proved for histories in which Terminating is only written over a running status of a live command
+   (assumption monitor asm), outside the duplicate-instance window w_dup. *)
 From Coq Require Import List ZArith NArith Bool Lia.
 From RecordUpdate Require Import RecordSet.
 From PC.Base Require Import Assoc.
